@@ -115,8 +115,8 @@ def gen_rendezvous(rng):
     """Job bodies that block until another job's body has ended (w<k>), enqueued back-to-back / nested / from two threads, on pools
     with enough workers that every schedule of the correct code completes: a queued job with an idle worker is then a lost wake-up
     of cv_jobs_ (e.g. enqueue() that notifies only when the queue becomes non-empty)."""
-    v = rng.below(6)
-    body = {}; progs = None; feat = ["rendezvous"]
+    v = rng.below(13) % 7      # variant 6 (under-provisioned, ends in a legitimate rest state) less often
+    body = {}; progs = None; feat = ["rendezvous"]; safe = True
     if v == 0:      # pair, back-to-back
         W = rng.range(2, 4); body = {0: ["w1"], 1: []}; enq = ["e0", "e1"]
     elif v == 1:    # chain A waits B waits C
@@ -129,6 +129,9 @@ def gen_rendezvous(rng):
     elif v == 4:    # warm-up job first, so that the workers are in different phases of going idle when the pair arrives
         W = rng.range(2, 4); body = {0: ["w1"], 1: [], 2: []}; enq = ["e2", "e0", "e1"]
         if rng.chance(1, 2): enq = ["e2", "L", "e0", "e1"]
+    elif v == 6:    # under-provisioned: the only worker blocks in job 0, job 1 stays queued -- the job graph never finishes; the rest
+                    # state (a blocked job body, a queued job, NO idle worker) is legitimate and must be classified as such
+        W = 1; body = {0: ["w1"], 1: []}; enq = ["e0", "e1"]; safe = False; feat.append("underprovisioned")
     else:           # waiter enqueued by a job, awaited job enqueued by the client right behind it
         W = rng.range(2, 4); body = {0: ["e1"], 1: ["w2"], 2: []}; enq = ["e0", "e2"]
     nextra = rng.below(3)                      # independent extra jobs
@@ -150,7 +153,7 @@ def gen_rendezvous(rng):
     J = ";".join("%d:%s" % (j, ".".join(body[j])) for j in sorted(body))
     Cs = ";".join(".".join(p) or "D" for p in progs[1:]) or "-"
     M = ".".join(progs[0]) or "-"
-    return "W=%d J=%s C=%s M=%s%s" % (W, J, Cs, M, extra), True, "rendezvous", feat
+    return "W=%d J=%s C=%s M=%s%s" % (W, J, Cs, M, extra), safe, "rendezvous", feat
 
 def with_run(sc, sp, st, seed): return "%s sp=%d st=%d seed=%d" % (sc, sp, st, seed)
 
@@ -166,7 +169,9 @@ else:
     NSC = 9000 if ck.thorough() else 1100          # scenarios; each is run under several schedules
     for k in range(NSC):
         spur = (k % 3 == 2)
-        if k % 8 == 5: sc, safe, fam, feat = gen_rendezvous(rng)
+        if k % 8 == 5:
+            sc, safe, fam, feat = gen_rendezvous(rng)
+            if not safe: spur = False
         else: sc, safe, fam, feat = gen_scenario(rng, want_safe=spur)
         fams[fam] = fams.get(fam, 0) + 1
         for ft in feat: feats[ft] = feats.get(ft, 0) + 1
